@@ -297,6 +297,38 @@ func (cr *completeRunner) checkFilling(vals []string) {
 			cr.checkRPM(fp, ran2, shape)
 		}
 	}
+	// letter case belongs to the values: the same filling with upper-cased values must match
+	// with exactly those values (only the decision on literals ignores case)
+	{
+		up := make([]string, len(vals))
+		changed := false
+		for i, v := range vals {
+			up[i] = strings.ToUpper(v)
+			if up[i] != v {
+				changed = true
+			}
+		}
+		if changed && legalFilling(cr.p, up) {
+			vp := cr.p.fill(up)
+			ran2, got2, st := cr.dispatch(vp)
+			if st != -1 {
+				e.Eval(1)
+				if !ran2 {
+					e.Violation(c, "complete|upper-case-values-not-matched|"+shape,
+						fmt.Sprintf("%q matches %q but not %q", cr.text, path, vp), detail(map[string]any{"variant": vp}))
+				} else {
+					for i, k := range cr.keys {
+						if k != "" && !(ambiguousTail && i == nt-2) && got2[k] != up[i] {
+							e.Violation(c, "complete|upper-case-value-not-returned-as-spelled|"+shape,
+								fmt.Sprintf("%q on %q: Params(%q)=%q, filled with %q", cr.text, vp, k, got2[k], up[i]), detail(map[string]any{"variant": vp, "params": got2}))
+							break
+						}
+					}
+				}
+				cr.checkRPM(vp, ran2, shape)
+			}
+		}
+	}
 	// invariance: trailing slash
 	if !cr.cfg.Strict && !strings.HasSuffix(path, "/") {
 		sp := path + "/"
@@ -565,7 +597,7 @@ func runComplete(e *ev.Env) {
 	e.Cases("random", e.N(100000, 2000000), func(c *ev.Case) {
 		r := c.R
 		n := r.Range(3, 10)
-		lits := []string{"a", "b", "ab", "/", "-", ".", "/api", "/v1/", "-x", ".json", "/Shop", "Ab", "/q"}
+		lits := []string{"a", "b", "ab", "/", "-", ".", "/api", "/v1/", "-x", ".json", "/Shop", "Ab", "/q", "/CAFÉ", "-Ärger", "/ΩΩ", "é"}
 		var toks []tok
 		toks = append(toks, tok{Kind: tLit, Lit: "/"})
 		nn := 0
